@@ -82,6 +82,15 @@ pub fn random_tail(rng: &mut Rng) -> Vec<u8> {
     }
 }
 
+/// Stalls of the terminal in paced mode: mostly none; otherwise from a millisecond to an hour of
+/// virtual time, on both sides of plausible timer values (5 s, 60 s).
+pub fn random_paced_gaps(rng: &mut Rng) -> Vec<u32> {
+    if rng.pct(60) {
+        return vec![];
+    }
+    (0..1 + rng.usize_below(3)).map(|_| *rng.pick(&[0u32, 1, 900, 4_999, 5_001, 59_000, 61_000, 3_600_000])).collect()
+}
+
 pub fn random_paced_cuts(rng: &mut Rng, len: usize) -> Vec<u32> {
     let n = 1 + rng.usize_below(6);
     (0..n).map(|_| rng.below(len as u64 + 1) as u32).collect()
@@ -206,9 +215,41 @@ fn seq_families(tier: Tier, _seed: u64) -> Vec<Family<ExPlan>> {
             if plan.mode == Mode::Paced {
                 let len = plan.stream().len();
                 plan.paced_cuts = random_paced_cuts(rng, len);
+                plan.paced_gaps_ms = random_paced_gaps(rng);
             }
             plan
         }));
+        // the terminal stalls at every byte position of the first packets of an exchange (inside the
+        // acknowledgement, inside each header, inside a body, between packets)
+        {
+            let mut cases: Vec<(SeqId, Vec<Cf>, u32, u32)> = vec![];
+            for id in ALL_SEQS {
+                let info = seqs::info(id);
+                let mut script: Vec<Cf> = vec![];
+                if !info.single_reply {
+                    if let Some(nf) = info.non_final.first() {
+                        script.push(*nf);
+                    }
+                }
+                script.push(info.finals[0]);
+                let len = ExPlan::clean(id, InParams::fixed(), frames_for(id, &script, 3)).stream().len() as u32;
+                for pos in 1..len.min(20) {
+                    for gap in [4_999u32, 5_001, 61_000] {
+                        cases.push((id, script.clone(), pos, gap));
+                    }
+                }
+            }
+            let n = cases.len() as u64;
+            fams.push(Family::new("terminal_stalls_at_every_byte_position", n, true, move |i, _| {
+                let (id, script, pos, gap) = &cases[i as usize];
+                let mut plan = ExPlan::clean(*id, InParams::fixed(), frames_for(*id, script, 3));
+                plan.mode = Mode::Paced;
+                plan.paced_cuts = vec![*pos];
+                plan.paced_gaps_ms = vec![0, *gap];
+                plan.tail = rc::ACK.to_vec();
+                plan
+            }));
+        }
         let count = match tier {
             Tier::Quick => 60_000,
             Tier::Thorough => 2_000_000,
@@ -244,6 +285,7 @@ pub fn random_plan(rng: &mut Rng, max_depth: usize) -> ExPlan {
     if plan.mode == Mode::Paced {
         let len = plan.stream().len();
         plan.paced_cuts = random_paced_cuts(rng, len);
+        plan.paced_gaps_ms = random_paced_gaps(rng);
     }
     plan
 }
@@ -269,16 +311,23 @@ pub fn shrink_explan(plan: &ExPlan) -> Vec<ExPlan> {
     let mut p = plan.clone();
     p.sched.read_mode = crate::conn::ChunkMode::Whole;
     push(p);
+    if !plan.paced_gaps_ms.is_empty() {
+        let mut p = plan.clone();
+        p.paced_gaps_ms.clear();
+        push(p);
+    }
     if plan.mode != Mode::Lockstep {
         let mut p = plan.clone();
         p.mode = Mode::Lockstep;
         p.paced_cuts.clear();
+        p.paced_gaps_ms.clear();
         push(p);
     }
     if plan.mode == Mode::Paced {
         let mut p = plan.clone();
         p.mode = Mode::Eager;
         p.paced_cuts.clear();
+        p.paced_gaps_ms.clear();
         push(p);
     }
     // drop replies (not the last one), keeping cut offsets meaningful only if no cut
